@@ -89,6 +89,13 @@ theorem anchor_geometric {𝕜 : Type} [NormedField 𝕜] [CompleteSpace 𝕜] (
   field_simp
   ring
 
+/-- the executable spec predicate `ztSpecCheck` (the one the oracle runs on the real Lcapy's
+    outputs) accepts the model's closed form for every signal and every bound N: it is not
+    stricter than `IsZT` -/
+theorem spec_predicate_accepts_model [DecidableEq K] (ts : List (CTerm K)) (h : ∀ t ∈ ts, t.base.ok) (N : ℕ) :
+    ztSpecCheck (sigVal ts) (ztSig ts) N = none :=
+  ztSpecCheck_of_isZT (sigVal ts) (ztSig ts) (zt_closed_form_sound ts h) N
+
 /-! ## 3. Inverse transform: long division recovers the sequence -/
 
 /-- long division of `num/den` yields the coefficients of ANY series S with `den * S = num` -/
@@ -139,6 +146,60 @@ theorem recursion_is_convolution (b a : List K) (x : ℤ → K) (ic : List K) (h
     (hlen : a.length = ic.length + 1) (hic : ∀ v ∈ ic, v = 0) (hx : ∀ i, i < 0 → x i = 0) (n : ℕ) :
     respY b a x ic n = ∑ p ∈ Finset.antidiagonal n, hCoeff b a p.1 * x p.2 :=
   recursion_is_convolution' b a x ic ha hlen hic hx n
+
+/-- response to initial conditions alone (`x[n] = 0` for n ≥ 0, `x[-1-i] = xic[i]`, `y[-1-i] = ic[i]`): the
+    z-domain expression built by `zdomain_initial_response` (numerator `iniNum`, denominator `a`) is the
+    z-transform of the recursion's output …  Stated for `len b ≤ len a`: for longer numerators the code
+    drops the terms `b[k] x[n-k]`, k ≥ len a (observed on the real code; covered by the oracle). -/
+theorem initial_conditions_response_partial (b a ic xic : List K) (ha : a.headD 0 ≠ 0)
+    (hlen : a.length = ic.length + 1) (hb : b.length ≤ a.length) :
+    toPS a * PowerSeries.mk (fun n : ℕ => respY b a (negSeq xic) ic n) = toPS (iniNum b a ic xic) :=
+  initial_response_ps b a ic xic ha hlen hb
+
+/-- … hence its samples (long division) are the recursion's output, for every n -/
+theorem initial_response_samples_partial (b a ic xic : List K) (ha : a.headD 0 ≠ 0)
+    (hlen : a.length = ic.length + 1) (hb : b.length ≤ a.length) (n i : ℕ) (hi : i < n) :
+    (series (iniNum b a ic xic) a n).getD i 0 = respY b a (negSeq xic) ic i := by
+  have := series_unique (iniNum b a ic xic) a ha _ (initial_response_ps b a ic xic ha hlen hb) n i hi
+  simpa using this
+
+example : ([2, 1] : List ℚ).headD 0 ≠ 0 ∧ ([2, 1] : List ℚ).length = ([3] : List ℚ).length + 1
+    ∧ ([1, 2] : List ℚ).length ≤ ([2, 1] : List ℚ).length := by simp
+
+/-! ## 5. DFT closed forms equal the defining sum, for every N and every k -/
+
+/-- `q = ω^k` for any N-th root of unity ω (so `q^N = 1`), any field of characteristic ≠ 2 (ℂ, and
+    the prime field the driver computes in).  Whenever the model of `DFTTransformer.termXq` returns a
+    value for a sum of terms `c n^p a^n {δ[n-d] | u[n-d] | 1}` (p ≤ 1; it returns `none` at a pole
+    `a q = 1`, for p ≥ 2 and for sinusoids), that value is `Σ_{n<N} x[n] q^n`.
+    `dftOk` excludes exactly: the impulse-index wrap `d ↦ d - N` (numeric N, d > N/2) combined
+    with an `a**n` or `n` factor (finding F21), and, for symbolic N, a step starting beyond N
+    (the code warns "assuming … in interval"). -/
+theorem dft_def [DecidableEq K] (numeric : Bool) (ts : List (CTerm K)) (N : ℕ) (q : K) (hq : q ^ N = 1)
+    (h2 : (1 + 1 : K) ≠ 0) (hok : ∀ t ∈ ts, dftOk numeric N t)
+    (v : K) (hv : dftSig numeric ts N q = some v) :
+    v = dftSum (fun n => sigVal ts n) q N := dft_sig_sound numeric ts N q hq h2 hok v hv
+
+example : dftOk true 8 (⟨2, 1, 3, .step 2⟩ : CTerm ℚ) := by simp [dftOk]
+example : dftSig true [(⟨2, 1, 3, .step 2⟩ : CTerm ℚ)] 8 (-1) ≠ none := by decide +kernel
+
+/-- geometric family, all N, via the finite geometric sum -/
+theorem dft_geometric (a q : K) (N : ℕ) (hq : q ^ N = 1) (h : 1 - a * q ≠ 0) :
+    dftSum (fun n => a ^ n) q N = (1 - a ^ N) / (1 - a * q) := by
+  have := geo0 a q h 0 N (Nat.zero_le _)
+  simp only [Nat.zero_le, ↓reduceIte, pow_zero, mul_pow, hq, mul_one] at this
+  exact this
+
+/-- impulse family -/
+theorem dft_impulse (d N : ℕ) (q : K) (hd : d < N) :
+    dftSum (fun n => if n = d then (1 : K) else 0) q N = q ^ d := by
+  rw [dftSum_single]; simp [hd]
+
+/-- `IDFT(DFT x) = x`: `(1/N) Σ_k X[k] ω^{-nk} = x[n]` for a primitive N-th root ω -/
+theorem idft_dft (N : ℕ) (ω : K) (hω : IsPrimitiveRoot ω N) (hN : (N : K) ≠ 0) (x : ℕ → K) (n : ℕ)
+    (hn : n < N) :
+    (1 / (N : K)) * dftSum (fun k => dftSum x (ω ^ k) N) ((ω⁻¹) ^ n) N = x n := by
+  rw [idft_dft' N ω hω x n hn]; field_simp
 
 example : ([1, 1 / 2] : List ℚ).headD 0 ≠ 0 ∧ ([1, 1 / 2] : List ℚ).length = ([0] : List ℚ).length + 1 := by
   simp
